@@ -14,7 +14,7 @@ import (
 )
 
 func init() {
-	register(&core.Rule{ID: "CS-ORDER", Props: []string{"C01"}, Floor: 12,
+	register(&core.Rule{ID: "CS-ORDER", Props: []string{"C01", "C07"}, Floor: 12,
 		Doc: "MPCalContext.commit: no Commit before every PreCommit result is in and the error test passed; commit/abort act on exactly the dirty handles and clear them; Run: abort() on the aborted arm, commit() only after a nil Body error and its error fed back to the loop-head switch",
 		Run: runCSOrder})
 	register(&core.Rule{ID: "CS-DIRTY", Props: []string{"C01"}, Floor: 4,
